@@ -118,10 +118,32 @@ theorem fromNtp_range (ntp : Nat) (h : ntp < 18446744073709551616) :
   unfold fromNtp; dsimp only
   omega
 
+/-- The abs-send-time a sender writes fits the 24-bit header-extension field for every clock value whatsoever
+(also after the NTP era: packing it never fails). -/
+theorem absSendTime_fits (ntp : Nat) : absSendTime ntp < 16777216 := by
+  unfold absSendTime
+  have h : (0x00FFFFFF : Nat) = 2 ^ 24 - 1 := by decide
+  rw [h, Nat.and_two_pow_sub_one_eq_mod]; omega
+
+/-- … and is the 6.18 fixed-point image of the instant: low 6 bits of the seconds, high 18 bits of the fraction. -/
+theorem absSendTime_of_toNtp (d s m : Nat) (hm : m < 1000000) :
+    absSendTime (toNtp d s m) = (high d s % 64) * 262144 + low m / 16384 := by
+  have := low_lt m hm
+  unfold absSendTime
+  have h : (0x00FFFFFF : Nat) = 2 ^ 24 - 1 := by decide
+  rw [toNtp_eq d s m hm, h, Nat.and_two_pow_sub_one_eq_mod, Nat.shiftRight_eq_div_pow]; omega
+
+/-- abs-send-time is periodic in 64 s: two instants a multiple of 64 s apart with equal microseconds collide, nothing else
+of the seconds matters (what the receiver's inter-arrival filter has to unwrap). -/
+theorem absSendTime_period (d s d' s' m : Nat) (hm : m < 1000000) (h : high d s % 64 = high d' s' % 64) :
+    absSendTime (toNtp d s m) = absSendTime (toNtp d' s' m) := by
+  rw [absSendTime_of_toNtp d s m hm, absSendTime_of_toNtp d' s' m hm, h]
+
 /-! non-vacuity / concrete anchors -/
 example : toNtp 45920 43200 500000 = 17040416752007118848 := by decide
 example : fromNtp 17040416752007118848 = (45920, 43200, 500000) := by decide
 example : fromNtp 18446744073709551615 = (49710, 23296, 0) := by decide
+example : absSendTime 17040416752007118848 = 131072 := by decide
 example : fromNtp 33554432 = (0, 0, 7812) := by decide  -- an exact tie 7812.5: rounds to even
 
 end Aiortc.Props.C18Ntp
